@@ -20,7 +20,7 @@ Det3(m) == m[1][1] * (m[2][2] * m[3][3] - m[2][3] * m[3][2])
 \* back-facing iff the screen-space cross product is positive
 SceneOf(r) ==
   LET s == r.scene IN
-  [np |-> s.np, fp |-> s.fp, col |-> s.col, nfr |-> s.nfr, npc |-> s.npc, dpix |-> s.dpix,
+  [np |-> s.np, fp |-> s.fp, col |-> s.col, nfr |-> s.nfr, npc |-> s.npc, ndeg |-> s.ndeg, dpix |-> s.dpix,
    face |-> [t \in 1..Len(s.tv) |-> IF Det3(s.tv[t]) * s.vsign > 0 THEN 1 ELSE 0],
    \* distance from the eye: the w of the lattice vertices bounds that of every point
    far |-> [t \in 1..Len(s.tv) |->
